@@ -174,8 +174,10 @@ let verdict case impl =
         "diff " ^ find 0 Z0 samples
       end
     end
-  | "E" :: _, "skip-env" :: _ -> "ok skip-env"
-  | ["E"; _serial; gen; nreq], [toks; consults; unmatched] ->
+  | ("E" | "S") :: _, "skip-env" :: _ -> "ok skip-env"
+  | (["E"; _; gen; nreq] | ["S"; _; gen; _; nreq]), [toks; consults; unmatched] ->
+    (* S = one request shape per case (wave 4): the same verdict, plus every request must have the case's kind *)
+    let shape = (match case with ["S"; _; _; k; _] -> Some k | _ -> None) in
     (* Every frame of a request - the first one and the ones re-sent after UNPREPARED - must carry
        frames_ts: the statement's timestamp if it has one (property: sent unchanged, in preference to a
        generated one => viol otherwise), else ONE generated value, the same in all frames of the request.
@@ -189,9 +191,13 @@ let verdict case impl =
     if List.length toks <> nreq then "diff shape: expected " ^ string_of_int nreq ^ " requests"
     else begin
       let viol = ref "" and diff = ref "" and gens = ref [] and n_generated = ref 0 and resent = ref 0 in
+      let n_explicit = ref 0 and n_notset = ref 0 in
       List.iteri (fun i tok ->
           match String.split_on_char '.' tok with
           | [kind; e; o] ->
+            (match shape with
+             | Some k when k <> kind -> if !diff = "" then diff := Printf.sprintf "request %d has kind %s in a case of shape %s" i kind k
+             | _ -> ());
             if o = "missing" then (if !diff = "" then diff := Printf.sprintf "request %d (%s): no frame seen" i kind)
             else begin
               let explicit = opt e in
@@ -201,7 +207,7 @@ let verdict case impl =
               let gen_value = if with_gen && explicit = None then first else None in
               let expected = frames_ts explicit (if with_gen then (match explicit with None -> gen_value | Some _ -> Some Z0) else None)
                   (nat_of_int (List.length frames - 1)) in
-              (match explicit with None -> incr n_generated | Some _ -> ());
+              (match explicit with None -> incr n_generated; incr n_notset | Some _ -> incr n_explicit);
               if expected <> frames then begin
                 match explicit with
                 | Some _ ->
@@ -224,7 +230,7 @@ let verdict case impl =
         if consults <> expected_consults then
           Printf.sprintf "diff model: %d next_timestamp calls, expected %d (%d requests without a statement timestamp + %d internal frames)"
             consults expected_consults !n_generated unmatched
-        else Printf.sprintf "ok resent=%d" !resent
+        else Printf.sprintf "ok resent=%d explicit=%d notset=%d" !resent !n_explicit !n_notset
       end
     end
   | _ -> "error unknown-case"
